@@ -112,6 +112,9 @@ type entry struct {
 	quota    func(state string, thorough bool) int // optional: inputs for one state (default: equal split)
 	scaleIn  []string                              // optional: states that take part in the scaling probe (default: all)
 	open     func(state string, env *env) (runner, error)
+	// stateful handler hammer (c09_stateful_test.go)
+	comp      string                  // component reported in violations (default: name)
+	gateFloor func(thorough bool) int // floor for the gate_passed/<name> counter
 }
 
 // env is what a runner gets from the framework.
@@ -147,6 +150,11 @@ func (e *env) Count(k string, n int) { e.res.Counters[k] += n }
 
 func findEntry(name string) *entry {
 	for _, e := range entries() {
+		if e.name == name {
+			return e
+		}
+	}
+	for _, e := range statefulEntries() {
 		if e.name == name {
 			return e
 		}
